@@ -60,7 +60,10 @@ func (t *c15Tree) rel(i int) []string {
 }
 
 var c15Names = []string{"a", "b.txt", "中文", "文件2", "ünï cödé", "emoji😀", " sp ace ", "-dash", "q\"uo\\te", "li\nne",
-	"Ω", "файл", "ファイル", "x.tar.gz", "#hash", "~tilde", "per%cent", "tab\there", "한글", "עברית"}
+	"Ω", "файл", "ファイル", "x.tar.gz", "#hash", "~tilde", "per%cent", "tab\there", "한글", "עברית",
+	// code points whose low byte is '/' (0x2F), '\\' (0x5C), '.' (0x2E) or NUL: a name check must work on
+	// the encoded name, not on truncated runes
+	"me\u012fl\u0117", "\u592f\u5b9e", "\u4e2f", "\u015c\u015d", "\u4e5c", "\u012e\u022e", "\u0100\u0200"}
 
 func c15Name(rng *rand.Rand, i int) string {
 	return fmt.Sprintf("%s%d", c15Names[rng.Intn(len(c15Names))], i)
@@ -639,6 +642,11 @@ func c15Record(tr *vTrace, run int, base string, tree *c15Tree, plan c15Plan, rn
 	s, err := c15Open(base, tree, nil)
 	if err != nil {
 		_ = os.RemoveAll(base)
+		if c15RealCodeRefusal(err) { // recorded: the trace specification has no such step, the run is rejected
+			tr.Emit(map[string]any{"e": "reset", "run": run, "kind": plan.kind, "entries": len(tree.Nodes), "pipelined": plan.pipelined, "top": tree.Top}, nil)
+			tr.Emit(map[string]any{"e": "refused", "msg": strings.SplitN(err.Error(), "\n", 2)[0]}, nil)
+			return nil
+		}
 		return err
 	}
 	defer s.cleanup()
@@ -1201,6 +1209,10 @@ func c15MBTShard(d *vCtx, shard, nshards int) error {
 		}
 		s, err := c15Open(filepath.Join(root, fmt.Sprintf("case-%d", ci)), tree, order)
 		if err != nil {
+			if c15RealCodeRefusal(err) { // the code under test refuses a legitimate tree: a divergence, not a harness problem
+				mism = append(mism, c15Mism{ci, -1, "refused", "reconstructed", err.Error(), "the real code refuses a legitimate tree"})
+				continue
+			}
 			return fmt.Errorf("case %d: %v", ci, err)
 		}
 		phi.s = s
@@ -1461,4 +1473,11 @@ func c15Limits(d *vCtx) error {
 		return err
 	}
 	return tr2.Close()
+}
+
+// c15RealCodeRefusal: errors of the code under test (not of the harness's own file handling) when a
+// session is set up on a legitimate tree.
+func c15RealCodeRefusal(err error) bool {
+	m := err.Error()
+	return strings.Contains(m, "Invalid source file") || strings.HasPrefix(m, "createDirOrFile") || strings.Contains(m, "Invalid file name")
 }
